@@ -187,6 +187,24 @@ func (env *SpecEnv) ident(name string) SVal {
 			return v
 		}
 	}
+	if ex.fc != nil {
+		for _, gl := range ex.fc.GhostLocals {
+			if gl.Name == name {
+				st := env.state()
+				if env.inOld && env.loopEntry != nil {
+					st = env.loopEntry
+				}
+				t, ok := st.vars["gl!"+name]
+				if !ok {
+					return env.fail("ghost local %s not initialised", name)
+				}
+				if gl.Type == "bool" {
+					return env.boolVal(t)
+				}
+				return SVal{V: Sc{t}, T: types.Typ[types.Int]}
+			}
+		}
+	}
 	if v, ok := env.vars[name]; ok {
 		if env.fr != nil && env.fr.isTop && !env.inOld {
 			// inside the function body a parameter name denotes its current cell
